@@ -249,6 +249,42 @@ func cmdCheck(args []string) int {
 		}(i)
 	}
 	wg.Wait()
+	// second chance: an obligation no solver decided within the limit (and that no listed finding names) is tried
+	// once more, two at a time, with three times the limit -- a slow proof on a busy machine must not look like a violation
+	listed := map[string]bool{}
+	for _, kf := range findings {
+		if kf.Fixed == "" {
+			for _, o := range kf.Obligations {
+				listed[o] = true
+			}
+		}
+	}
+	retried := 0
+	{
+		ropts := opts
+		ropts.Timeout = 3 * opts.Timeout
+		ropts.Seed = opts.Seed + 101
+		rsem := make(chan struct{}, 2)
+		var rwg sync.WaitGroup
+		for j := range results {
+			if results[j].Status != "undecided" || listed[strings.TrimSuffix(results[j].Name, "@conc")] || listed[results[j].Name] {
+				continue
+			}
+			retried++
+			rwg.Add(1)
+			go func(j int) {
+				defer rwg.Done()
+				rsem <- struct{}{}
+				defer func() { <-rsem }()
+				pos := results[j].Pos
+				first := results[j].Secs
+				results[j] = solveObligation(jobs[j].fr, jobs[j].idx, ropts, 100000+j)
+				results[j].Pos = pos
+				results[j].Secs += first
+			}(j)
+		}
+		rwg.Wait()
+	}
 	vacuityRun, vacuityOK := 0, 0
 	for i, c := range covers {
 		if c == "none" {
@@ -458,6 +494,7 @@ func cmdCheck(args []string) int {
 		"known_findings_reported":  knownLines,
 		"obligations_failing_as_known_findings": coveredByFinding,
 		"vacuity":                  map[string]int{"cover_checks_run": vacuityRun, "not_vacuous": vacuityOK},
+		"retried_with_longer_limit": retried,
 		"machinery_errors":         machinery,
 		"explanation":              "one SMT query per named obligation generated from the SSA of the real functions in /repo under their //@ contracts; unsat = discharged",
 	}
